@@ -126,6 +126,36 @@ func SelfTest(dir string) (ran int, failures []string) {
 			}
 		}
 	}
+	// rules of rounds 14-15 on the eap fixture package: Flag* reported, Pass* discharged
+	{
+		r := NewReport("SELF", "other")
+		c.noSilentSkipRule(r, "skip", "eap")
+		c.lostReceiverStoreRule(r, "recv", "eap")
+		c.formatRecursionRule(r, "fmt")
+		for _, w := range []struct {
+			rule, typ string
+			flag      bool
+		}{{"skip", "FlagSkip", true}, {"skip", "PassSkip", false}, {"recv", "FlagRecv", true}, {"recv", "PassRecv", false}, {"fmt", "FlagFmt", true}, {"fmt", "PassFmt", false}} {
+			seen, bad := 0, 0
+			for _, o := range r.Obls {
+				if o.Rule == w.rule && strings.Contains(o.Key, w.typ) {
+					seen++
+					if o.Verdict != Discharged {
+						bad++
+					}
+				}
+			}
+			ran++
+			switch {
+			case w.flag && bad == 0:
+				failures = append(failures, fmt.Sprintf("%s: rule %s did not fire", w.typ, w.rule))
+			case !w.flag && bad > 0:
+				failures = append(failures, fmt.Sprintf("%s: rule %s fired", w.typ, w.rule))
+			case !w.flag && seen == 0 && w.rule != "recv":
+				failures = append(failures, fmt.Sprintf("%s: rule %s has no obligation for it", w.typ, w.rule))
+			}
+		}
+	}
 	if ran < 25 {
 		failures = append(failures, fmt.Sprintf("only %d fixture functions were analysed (expected at least 25)", ran))
 	}
